@@ -562,7 +562,7 @@ package jd
 //@ contract verifCLICheck
 //@   bounded
 //@   needs_cli
-//@   cap 150 4000
+//@   cap 300 4000
 //@   universe a verifNodes(0)
 //@   universe b verifNodes(0)
 //@   universe fi []int{0, 1, 2, 3, 4, 5, 6, 7, 8}
